@@ -444,12 +444,15 @@ Section Evaluator.
       let* lv := m_load lc in
       let o := bop_of (ttag op) in
       (* the operators that need the evaluated right operand *)
-      let with_right (k : addr -> value -> M addr) : M addr :=
+      (* Go keeps the left *Cell and reads left.Value only after the right operand has been
+         evaluated: side effects of the right operand on that cell are visible *)
+      let with_right (k : addr -> value -> value -> M addr) : M addr :=
         let* rc := eval_expr f r in
         let* rv := m_load rc in
-        k rc rv in
+        let* lv2 := m_load lc in
+        k rc lv2 rv in
       let by_value : M addr :=
-        with_right (fun rc rv =>
+        with_right (fun rc lv rv =>
           lift_vres (binop_value o lv rv) (expr_token l) op (expr_token r)) in
       match o with
       | BAnd =>
@@ -477,7 +480,7 @@ Section Evaluator.
         | _ => rt_error (expr_token r)
         end
       | BMember =>
-        with_right (fun rc rv =>
+        with_right (fun rc lv rv =>
           (* an unset variable becomes an array or an object on first member access *)
           let* lv' :=
             match lv with
@@ -506,8 +509,8 @@ Section Evaluator.
       | BLt | BGt | BEq | BNe | BLe | BGe
       | BAdd | BSub | BMul | BDiv | BMod
       | BMatch | BNoMatch => by_value
-      | BAssign => with_right (fun rc rv => eval_assignment f (expr_token l) lc rc)
-      | BOther => with_right (fun rc rv => rt_error op)
+      | BAssign => with_right (fun rc _ _ => eval_assignment f (expr_token l) lc rc)
+      | BOther => with_right (fun _ _ _ => rt_error op)
       end
     end
 
